@@ -83,7 +83,8 @@ type SRow struct {
 	// val_mode 2 only: the float field of this row. Bits 0-1: 1 NaN, 2 +Inf, 3 -Inf instead of the column's value;
 	// bits 2-3: an ordinary value that differs from row to row instead of the column's pattern (1 integers,
 	// 2 at most three decimals, 3 six decimals) - "exactly one special value in an otherwise ordinary column";
-	// bits 4-5: 1 the value is -0.0, 2 -0.0 / +0.0 by slot parity
+	// bits 4-5: 1 the value is -0.0, 2 -0.0 / +0.0 by slot parity;
+	// bit 6: long runs - the value changes only every codecLongRun slots (run-length blocks with runs of tens of thousands of rows)
 	X int `json:"x,omitempty"`
 }
 
